@@ -9,7 +9,7 @@ observed event history); the correspondence (`mismatch`) runs the interleaving m
 schedulers and compares.
 -/
 import GoZero.Base.Trace
-import GoZero.C10.Spec
+import GoZero.C10.Spec5
 namespace GoZero.C10
 
 open GoZero
@@ -375,6 +375,7 @@ def runLine (r : Report) (sec : Nat) (l : Line) : Report := Id.run do
   match res with
   | .err (.user k) => if k ≥ 100 then r := r.addCover s!"returned-error-{errKindName k}-{run.api}"
   | _ => pure ()
+  if hr.any isCend then r := r.addCover s!"cancel-completed-before-return-{run.api}"
   if alt.any (allowedAt mapped hist) then r := r.addCover s!"returned-error-{errKindName 111}-{run.api}"
   -- the table for the schedule that actually happened
   let preW := upTo isWbegin hr
